@@ -5,6 +5,7 @@ call-graph construction.  No rule logic.
 """
 import json
 import os
+import re
 import sys
 from collections import defaultdict
 
@@ -517,6 +518,23 @@ class CallGraph:
                         edges[f.id].append((bb, k["res"], "spawn" if spawn else "closure-arg"))
                         if local_target:
                             passed_to[local_target].add(k["res"])
+        # a function that forwards its own Fn parameter to a helper hands it the closures it received itself
+        direct_callers = defaultdict(set)
+        for f in crate.real_fns():
+            for bb, c in f.calls():
+                if c.get("res_local") and c.get("res") in fns:
+                    direct_callers[c["res"]].add(f.root)
+        changed = True
+        rounds = 0
+        while changed and rounds < 5:
+            changed = False
+            rounds += 1
+            for g, cs in direct_callers.items():
+                for caller in cs:
+                    extra = passed_to.get(caller, set()) - passed_to.get(g, set())
+                    if extra and any(re.match(r"^&?(mut )?[A-Z][A-Za-z0-9]*$", fns[g].local_ty(i)) for i in range(1, fns[g].argc + 1)):
+                        passed_to[g] |= extra
+                        changed = True
         # Fn::call on a type parameter inside G (or closures nested in G)
         self.unresolved_param_calls = []
         for f in crate.real_fns():
